@@ -5,11 +5,11 @@ temporary directory outside /repo and /verif, removed afterwards) and the same c
 copy.  A mutant is *detected* when the check reports a failing instance whose key was not failing
 on the unmodified tree (or when it can no longer analyse: counted separately).  An unedited twin
 copy must produce no new key.  Misses are printed as SELFTEST-MISS and recorded in the evidence;
-they never change the verdict about /repo.  Fifteen behaviour-preserving twins (unedited, re-printed
+they never change the verdict about /repo.  Sixteen behaviour-preserving twins (unedited, re-printed
 with ast.unparse, locals renamed, arms of every two-armed `if` swapped, a debug log call added to
 every function and with-block, every function / loop body wrapped in try-except-reraise, every
 returned expression bound to a temporary first, else-after-return introduced, component receivers
-bound to locals, plain local assignments annotated, positional arguments turned into keywords and back, every parameter renamed, every method body moved behind a delegating stub, SQL text hoisted into a local) must each give exactly the verdict of the original tree.
+bound to locals, plain local assignments annotated, positional arguments turned into keywords and back, every parameter renamed, every method body moved behind a delegating stub, SQL text hoisted into a local, trailing ifs turned into guard clauses) must each give exactly the verdict of the original tree.
 """
 
 from __future__ import annotations
@@ -25,7 +25,7 @@ from .loader import AnalysisError, Repo
 from .report import Context
 
 COPY = ("pynenc", "pynmon")
-TWIN_MODES = ("flip", "log", "try", "retvar", "elseret", "recv", "annot", "kw", "pos", "params", "delegate", "sqlvar")
+TWIN_MODES = ("flip", "log", "try", "retvar", "elseret", "recv", "annot", "kw", "pos", "params", "delegate", "sqlvar", "guard")
 TWINS = ("twin-unedited", "twin-unparse", "twin-rename") + tuple(f"twin-{m}" for m in TWIN_MODES)
 DOCS = ("docs/_static/invocation_state_machine.svg", "docs/usage_guide/invocation_status.md")
 
